@@ -330,6 +330,16 @@ def parseCmp (s : String) : Option Oracle.CmpObs :=
 def step (line impl : String) : String × Verdict :=
   let ws := line.splitOn " "
   let bad := ("bad-op", Verdict.skip "bad-op")
+  -- displaying a value, a unit or a rate always produces text: a panic (e.g. a formatting trait
+  -- implementation returning an error) is a failing input of its own, whatever the text would have been
+  let isFmtOp := match ws with
+    | "fmt" :: _ => true | "fmtu" :: _ => true | "fmtrt" :: _ => true | "ftxt" :: _ => true
+    | _ => ws.getLast? == some "fmt" && ws.head? == some "rate"
+  if isFmtOp && impl.startsWith "panic:" then
+    ("text", .fail "displaying the value panicked instead of producing text")
+  else if ws.head? == some "ser" && impl.startsWith "panic:" then
+    ("json", .fail "serialising / deserialising the value panicked")
+  else
   match ws with
   | ["reg", t] =>
     match W.find t with
